@@ -303,6 +303,92 @@ func c11(r *core.Run) {
 					good = true
 				}
 			}
+			// the test may sit in a validation helper that is handed the id and whose error ends Create
+			if !good {
+				var writes []ssa.Instruction
+				for _, c := range core.Calls(cr) {
+					if cal := c.Common().StaticCallee(); cal != nil && cal.Name() == "Update" {
+						writes = append(writes, c)
+					}
+				}
+				for _, b := range cr.Blocks {
+					for _, in := range b.Instrs {
+						if mu, ok := in.(*ssa.MapUpdate); ok {
+							writes = append(writes, mu)
+						}
+					}
+				}
+				for _, c := range core.Calls(cr) {
+					hc, isCall := c.(*ssa.Call)
+					cal := c.Common().StaticCallee()
+					if !isCall || cal == nil || len(cal.Blocks) == 0 || cal.Pkg != cr.Pkg || types.TypeString(hc.Type(), nil) != "error" {
+						continue
+					}
+					// which parameter receives the id
+					pi := -1
+					for i, a := range c.Common().Args {
+						if f, ok := core.LoadedField(a); (ok && f == idF) || loadsFieldThroughCell(a, idF) {
+							pi = i
+						}
+					}
+					if pi < 0 || pi >= len(cal.Params) {
+						continue
+					}
+					// in the helper: param == "" leads to a non-nil error return
+					rejects := false
+					for _, hb := range cal.Blocks {
+						iff, ok := hb.Instrs[len(hb.Instrs)-1].(*ssa.If)
+						if !ok {
+							continue
+						}
+						ci := core.Cond(iff.Cond)
+						if ci.Kind != "constcmp" || ci.Const == nil || ci.Const.ExactString() != `""` || ci.X != ssa.Value(cal.Params[pi]) {
+							continue
+						}
+						emptyEdge := 0
+						if (ci.Op == token.NEQ) != ci.Negate {
+							emptyEdge = 1
+						}
+						eb := hb.Succs[emptyEdge]
+						if ret, ok := eb.Instrs[len(eb.Instrs)-1].(*ssa.Return); ok && len(ret.Results) == 1 {
+							if cst, isC := ret.Results[0].(*ssa.Const); !isC || !cst.IsNil() {
+								rejects = true
+							}
+						}
+					}
+					if !rejects {
+						continue
+					}
+					// in Create: every write is dominated by the nil edge of the helper's result
+					all := len(writes) > 0
+					for _, w := range writes {
+						dom := false
+						for _, ed := range dominatingEdges(w) {
+							cnd, succ := ed.Norm()
+							bo, ok := cnd.(*ssa.BinOp)
+							if !ok || (bo.Op != token.EQL && bo.Op != token.NEQ) {
+								continue
+							}
+							x, y := bo.X, bo.Y
+							if cst, isC := x.(*ssa.Const); isC && cst.IsNil() {
+								x, y = y, x
+							}
+							if cst, isC := y.(*ssa.Const); !isC || !cst.IsNil() || x != ssa.Value(hc) {
+								continue
+							}
+							if (bo.Op == token.EQL) == (succ == 0) {
+								dom = true
+							}
+						}
+						if !dom {
+							all = false
+						}
+					}
+					if all {
+						good = true
+					}
+				}
+			}
 			r.Check(good, "E2", core.FuncName(cr), "empty-id-tested-before-write", p.Pos(cr.Pos()), "Create tests the id for \"\" before writing", "Create does not test for an empty id before writing: a value is stored under the bare prefix")
 		}
 
